@@ -43,6 +43,8 @@ class C19(Prop):
                 meta = {'via_config': via_config}
                 yield Case('transform', ('convert', (('k', ('fn', 3)),), pol, ev, None, t), meta)
                 yield Case('transform', ('convert', (('k', ('fn', 3)), ('a', ('fn', 0))), pol, ev, None, t), meta)
+                # a row-aware converter (pass_row=True) failing on the same cells
+                yield Case('transform', ('convert', (('k', ('fn', 8)),), pol, ev, None, t), meta)
                 # a lookup-table converter: fails with KeyError on the same cells
                 yield Case('transform', ('convert', (('k', ('fn', 7)),), pol, ev, None, t), meta)
                 yield Case('transform', ('fieldmap', (('kk', ('fieldconv', 'k', ('fn', 3))), ('aa', ('field', 'a'))), pol, ev, t),
